@@ -663,11 +663,15 @@ class CheckC09(Check):
         return Check.distinct_key(self, sc, res)
 
     def nontrivial(self, sc, res):
+        if (sc.get("meta") or {}).get("table"):
+            return True
         return res.rounds >= 10 and res.probes.get("c09-phases-started", 0) >= 1
 
     def extra_coverage(self, agg):
-        return {"schedule_table": {"n_range": "see rule", "rhomax_grid": RHOMAX_GRID,
-                                   "exhaustive_over_table": agg["skipped"] == 0}}
+        done = sum(1 for k in agg["keys"] if k and k[0] == "table")
+        return {"schedule_table": {"rhomax_grid": RHOMAX_GRID, "table_cells_run": done,
+                                   "note": "table cell = (budget n, rho_max); every n of the tier's range x every grid value; "
+                                           "exhaustive over that table when table_cells_run equals (n_hi-n_lo+1)*len(grid)"}}
 
 
 class CheckC10(Check):
